@@ -25,7 +25,7 @@ def get_supercell_kpts(supercell):
         *[np.arange(r[0], r[1] + 1) for r in xyz_range], indexing="ij"
     )
     possible_kpts = np.dot(np.stack([x.ravel() for x in kptmesh]).T, Sinv)
-    in_unit_box = (possible_kpts >= 0) * (possible_kpts < 1 - 1e-12)
+    in_unit_box = (possible_kpts >= -1e-12) * (possible_kpts < 1 - 1e-12)
     select = np.where(np.all(in_unit_box, axis=1))[0]
     reclatvec = np.linalg.inv(supercell.original_cell.lattice_vectors()).T * 2 * np.pi
     return np.dot(possible_kpts[select], reclatvec)
@@ -39,7 +39,7 @@ def get_supercell_copies(latvec, S):
     xyz_range = np.stack([f(unit_box_, axis=0) for f in (np.amin, np.amax)]).T
     mesh = np.meshgrid(*[np.arange(r[0], r[1] + 1) for r in xyz_range], indexing="ij")
     possible_pts = np.dot(np.stack([x.ravel() for x in mesh]).T, Sinv.T)
-    in_unit_box = (possible_pts >= 0) * (possible_pts < 1 - 1e-12)
+    in_unit_box = (possible_pts >= -1e-12) * (possible_pts < 1 - 1e-12)
     select = np.where(np.all(in_unit_box, axis=1))[0]
     return np.linalg.multi_dot((possible_pts[select], S, latvec))
 
